@@ -21,10 +21,41 @@ def oracle(case, impl_lines, model_lines):
 
 
 def run(ctx):
+    # stage 1: single thread (Cycle layer)
     cyclecheck.run_cycle(ctx, ["panic-cycles"], n_quick=500, n_thorough=8000, oracle=oracle,
                          nontrivial_rule=lambda f: "cycle_panic" in f and "reexec" in f and "validate" in f,
                          thm_note=open(__file__.replace("C14.py", "notes/C14.txt")).read())
+    # stage 2: cross-thread (CFetch/Proto layer, Props/C14x.v; OS-thread workload + H2 trace replay)
+    from checks import C14x, parcheck
+    from vplib import common
+    proof_broken, rep, driver = parcheck.build_common(ctx, prop_file="C14x")
+    cov = C14x.cross_part(ctx, proof_broken, driver)
+    if proof_broken is not None and not ctx.violations:
+        ctx.violation(dict(kind="proof obligation no longer checks", broken=proof_broken, theorem_file="coq/Props/C14x.v",
+                           search=f"{cov['cross_schedules']} repetitions of the cross-thread workload, none fails"), no_input=True)
+    c = ctx.coverage
+    if rep:
+        c["obligations"] = c.get("obligations", 0) + rep["obligations"]
+        c["discharged"] = c.get("discharged", 0) + rep["discharged"]
+        c["theorems"] = list(c.get("theorems", [])) + rep["statements"]
+        c["axioms_reported"] = list(c.get("axioms_reported", [])) + rep["axioms"]
+        c["closed_under_global_context"] = c.get("closed_under_global_context", 0) + rep["closed_count"]
+    c["checker_cmd"] = "make -C coq Props/C14.vo Props/C14x.vo  (coqc 8.16.1, Print Assumptions captured and compared with coq/ASSUMPTIONS.allow)"
+    c["theorem_note"] = c.get("theorem_note", "") + "\n\nCROSS-THREAD PART: " + open(__file__.replace("C14.py", "notes/C14x.txt")).read()
+    c["trusted_base"] = list(c.get("trusted_base", [])) + [
+        "cross-thread stage: the OS scheduler plus the harness' randomised rendezvous produce the explored interleavings (shuttle cannot drive unwinding workloads)",
+        "hook H2 appends each protocol record while the critical section's locks are held",
+        "panic payloads are classified by message text (cycle error) / type (salsa::Cancelled)"]
+    c["evaluations"] = c.get("evaluations", 0) + cov["cross_schedules"]
+    c.update(cov)
+    ctx.assumptions = [a for a in ctx.assumptions if "cross-thread parts of C14" not in a] + [
+        "critical sections are atomic",
+        "the evaluator performs exactly the protocol steps of Props/C14x.v when it unwinds (checked by trace replay)"]
+    ctx.write_evidence("proof")
 
 
 def replay(ctx, rp):
+    if rp.get("os_threads") or rp.get("mode") == "cycles":
+        from checks import parcheck
+        return parcheck.replay_generic(ctx, rp, std=True)
     return cyclecheck.replay(ctx, rp)
